@@ -3,6 +3,7 @@ from pyvc import lean
 INFO = {
     "level": "proof",
     "level_text": "The premise `state step length = configured step length` is established where states are built: every SimulationState(...) construction outside mocks passes the configured step length and start time (call-site rule; the class default of 60 s would silently override the configuration). tick adds exactly the step length and nothing else; every function between a vehicle update and Update.apply_update carries the frame `clock untouched` (part of their contracts), so one apply_update advances sim_time by exactly dt (proved for all states); crank(n) and LocalSimulationRunner.run are folds of that step, proved with inductive invariants `time = t0 + i*dt` (nonlinear integer arithmetic), so crank(n) ends at t0 + n*dt, run ends at the configured end time when dt divides the interval, and step() refuses at or beyond the end time. Stepping composes: with the ghost function step_of(u, rp) naming the payload Update.apply_update returns and iter_steps(rp, n) its n-fold iterate `rp -> step_of(rp.u, rp)` (each step uses the update functions carried by the payload it steps), crank(rp, n).runner_payload == iter_steps(rp, n) and LocalSimulationRunner.run(rp) == iter_steps(rp, number of steps in [start, end)) are proved with the inductive invariant `acc == iter_steps(rp, i)`, and LocalSimulationRunner.step(rp) == step_of(rp.u, rp) unless it refuses; crank(a);crank(b) = crank(a+b) = the batch runner over the same interval is then lemma L4 (iterating a then b times is iterating a+b times; Lean), whose premise — the step function ignores its index — is an AST obligation on the two step closures.",
+    "technique": "contract-based deductive verification: VCs generated from the real Python AST (pyvc), discharged by z3/cvc5; call-site rule on every SimulationState(...) construction (step length and start time taken from the configuration; labelled ast-rule); Lean for lemma L4",
     "level_note": "Update.apply_update is used through its contract; `same states and events` is equality of the values of one pure step function (C16) iterated; events are equal only up to the order within a step (C01). When dt does not divide end-start the runner overshoots the end time by less than one step (stated in the contract, not a violation of the clauses proved).",
     "trusted_base": ["lemma L4 (fold over range(a+b) splits), checked by lean on every run", "tqdm(range(..)) iterates range(..)"],
     "assumptions": ["determinism of Update.apply_update: its result is a function of (self, runner_payload) — hidden state in file readers carried inside the update functions (DictReaderIterator cursors) is outside the model",
